@@ -486,7 +486,10 @@ def dnskey_record(ctx):
             return [b'\x01' + b'\x91' * 20 + b'\xd5' * 72 + (b'\x22' * 71).rjust(72, b'\x00') + (b'\x33' * 70).rjust(72, b'\x00'),
                     # T = 1 with a prime just above a power of two (2 ** 512 + 1 in 72 octets): its size in octets has to come out as 65
                     b'\x01' + b'\x91' * 20 + (b'\x01' + b'\x00' * 63 + b'\x01').rjust(72, b'\x00') + (b'\x22' * 64).rjust(72, b'\x00') +
-                    (b'\x33' * 64).rjust(72, b'\x00')]
+                    (b'\x33' * 64).rjust(72, b'\x00'),
+                    # T = 1 with a small prime and a generator that fills the field (nothing in RFC 2536 lets the parser refuse it): what is
+                    # accepted has to come back in fields of the same width
+                    b'\x01' + b'\x91' * 20 + b'\x07'.rjust(72, b'\x00') + (b'\x04' + b'\x00' * 71) + b'\x03'.rjust(72, b'\x00')]
         if kt in ('ECDSA', 'GOST_R3410_01'):
             n = 48 if '384' in name else 32
             return [b'\xa1' * n + b'\xb2' * n, (b'\x5a' * (n - 1)).rjust(n, b'\x00') + (b'\x6b' * (n - 2)).rjust(n, b'\x00')]
